@@ -150,9 +150,13 @@ func checkPMT(c *mon.Ctx, tag string, m psi.PMT, p *ref.PMT, w func(string) wit)
 // reusedReader serves the streams of many cases in turn, the way a demultiplexer keeps one reader per input.
 var reusedReader = bytes.NewReader(nil)
 
+// keptPMTs: decoded PMTs that are looked at again after many later ones were decoded.
+var keptPMTs mon.Keeper
+
 func run(c *mon.Ctx) {
 	c.Rule("PMT sections generated from ground truth (0..50 streams, 0..3 descriptors each incl. empty and long bodies, program descriptors, all versions) x carriers (pointer_field 0..183 with 0xFF filler, 0..2 other complete sections before, trailing 0xFF) x packetisations (random splits 1..184, adaptation-field stuffing or 0xFF padding, running continuity counter, interleaved packets of other PIDs with and without PUSI); every prefix of the payload is given to the completion predicate. distinct non-trivial = distinct (pointer class, other sections before, packet count class, split coincides with a section boundary, descriptor shape class, trailing stuffing)")
 	c.Assume("predicate rule: required false when the prefix ends inside the pointer filler, exactly at the start of the first section or strictly inside a section (including its 3-byte header); required true from the end of the last section on; unconstrained exactly at the boundary between two sections. ReadPMT is exercised with at least one elementary stream. Other sections before the PMT section use table ids other than 0x02 and 0xFF")
+	c.Floor("kept.decoded PMT.looked_at_again_after_64_or_more_later_objects", 1000)
 	c.Floor("predicate.required_false", 100000)
 	c.Floor("predicate.required_true", 5000)
 	c.Floor("readpmt.split_on_section_boundary", 20)
@@ -195,6 +199,16 @@ func run(c *mon.Ctx) {
 			return
 		}
 		checkPMT(c, "NewPMT", m, &p, w("payload"))
+		if i%4 == 0 {
+			// an object of its own is kept and looked at again after 1 ... 4095 later PMTs were decoded
+			if mk, err := psi.NewPMT(append([]byte{}, snap...)); err == nil && mk != nil {
+				pk, wk := p, w("payload")
+				keptPMTs.Keep(c, "decoded PMT", r, func() string {
+					checkPMT(c, "NewPMT-object-kept-across-many-later-decodes", mk, &pk, wk)
+					return ""
+				})
+			}
+		}
 		if !bytes.Equal(full, snap) {
 			c.Fail("NewPMT:input-modified", "NewPMT or a getter modified the payload", w("payload")(""))
 		}
@@ -381,6 +395,26 @@ func run(c *mon.Ctx) {
 				c.Count("readpmt.after_failed_readpmt")
 			}
 			psi.ReadPMT(bytes.NewReader(in[:188*r.Intn(1+len(in)/188)]), pid)
+		}
+		if r.Chance(10) {
+			// the stream read before this one was of another kind (204- or 192-byte packets, no transport stream at
+			// all): whatever was made of it, nothing of it carries over
+			var junk []byte
+			kind := r.Intn(3)
+			for k := 2 + r.Intn(6); k > 0; k-- {
+				o := ref.PaddedPacket(r.PickInt([]int{pid, pid, 0, 1 + r.Intn(8190)}), k&15, k%2 == 0, r.Bytes(r.Intn(100)))
+				switch kind {
+				case 0:
+					junk = append(append(junk, o[:]...), r.Bytes(16)...)
+				case 1:
+					junk = append(append(junk, r.Bytes(4)...), o[:]...)
+				default:
+					junk = append(junk, r.Bytes(150)...)
+				}
+			}
+			psi.ReadPMT(bytes.NewReader(junk), pid)
+			psi.ReadPAT(bytes.NewReader(junk))
+			c.Count("readpmt.after_a_stream_of_another_kind")
 		}
 		m2, err := psi.ReadPMT(ref.AnyReader(r, append([]byte{}, in...)), pid)
 		c.Eval(1)
